@@ -18,12 +18,12 @@ import (
 // C13 — reference values canonicalise idempotently and survive JSON and gob.
 
 var (
-	c13Schemes = []string{"", "http:", "HTTP:", "https:", "HttpS:", "file:", "FILE:", "ftp:", "x-custom+1:"}
+	c13Schemes = []string{"", "http:", "HTTP:", "https:", "HttpS:", "file:", "FILE:", "ftp:", "x-custom+1:", "urn:spec:\"quoted\":"}
 	c13Auth    = []string{"", "//example.com", "//EXAMPLE.Com", "//example.com:80", "//example.com:443", "//example.com:8080", "//127.0.0.1", "//127.0.0.1:80",
 		"//[::1]", "//[2001:DB8::1]:443", "//host.example:080", "//", "//user@example.com", "//xn--e1afmkfd.example"}
 	c13Paths = []string{"", "/", "/a/b.json", "a/b.json", "/a//b///c.json", "/a/../b/./c.json", "/a%20b.json", "/a b.json", "/é.json", "/%C3%A9.json",
 		"/a%2Fb.json", "../up/x.json", "./x.json", "/A/B.JSON", "/~user/x.json", "/a+b.json", "/a;p=1/b", "c:/win/x.json", "/{id}.json", "/x.json/"}
-	c13Query = []string{"", "?q=1", "?q=a%20b&r=%C3%A9", "?", "?a=/b//c"}
+	c13Query = []string{"", "?q=1", "?q=a%20b&r=%C3%A9", "?", "?a=/b//c", "?f=\"pets\"", "?q=a\\b"}
 	c13Frag  = []string{"", "#", "#/definitions/a", "#/a~1b/c~0d", "#/a%20b", "#/é", "#/a b", "#frag", "#/a%2Fb", "#/%7E", "#/definitions//x", "#/0/1", "#/a%25b", "#/a\"b", "#/a%7Bid%7D"}
 )
 
@@ -171,6 +171,56 @@ func c13Check(res *core.CaseResult, s string) {
 	}
 }
 
+// c13Sequence encodes a whole batch first and decodes afterwards: an encoding must stay valid after later encodings
+// (the exported GobEncode/MarshalJSON methods return byte slices the caller owns).
+func c13Sequence(res *core.CaseResult, strs []string) {
+	type enc struct {
+		s        string
+		view     refView
+		gobBytes []byte
+		jsonText []byte
+	}
+	var encs []enc
+	for _, s := range strs {
+		r, err := spec.NewRef(s)
+		if err != nil {
+			continue
+		}
+		e := enc{s: s, view: viewRef(&r)}
+		err, pan := guard(func() error {
+			var e1, e2 error
+			e.gobBytes, e1 = r.GobEncode()
+			e.jsonText, e2 = r.MarshalJSON()
+			if e1 != nil {
+				return e1
+			}
+			return e2
+		})
+		if err != nil || pan != "" {
+			continue // reported by the per-string check
+		}
+		encs = append(encs, e)
+	}
+	for _, e := range encs {
+		wit := map[string]interface{}{"ref": e.s, "batch": strs}
+		var r spec.Ref
+		err, pan := guard(func() error { return r.GobDecode(e.gobBytes) })
+		res.Evals++
+		if err != nil || pan != "" {
+			res.Violate("ref-gob-bytes-invalid-after-later-encodings", fmt.Sprintf("%q: %v %s", e.s, err, pan), wit)
+		} else if v := viewRef(&r); !reflect.DeepEqual(v, e.view) {
+			res.Violate("ref-gob-bytes-changed-by-later-encodings "+c13FieldDiff(e.view, v), fmt.Sprintf("%q decodes as %q after other references were encoded", e.s, v.Text), wit)
+		}
+		var rj spec.Ref
+		if err := rj.UnmarshalJSON(e.jsonText); err != nil {
+			res.Violate("ref-json-bytes-invalid-after-later-encodings", fmt.Sprintf("%q: %v", e.s, err), wit)
+		} else if v := viewRef(&rj); !reflect.DeepEqual(v, e.view) {
+			res.Violate("ref-json-bytes-changed-by-later-encodings "+c13FieldDiff(e.view, v), fmt.Sprintf("%q decodes as %q", e.s, v.Text), wit)
+		}
+	}
+	res.Count("sequence-checked", len(encs))
+}
+
 func c13FieldDiff(a, b refView) string {
 	va, vb := reflect.ValueOf(a), reflect.ValueOf(b)
 	var out []string
@@ -225,6 +275,7 @@ func c13Run(env *core.Env, idx int) core.CaseResult {
 	for _, s := range strs {
 		c13Check(&res, s)
 	}
+	c13Sequence(&res, strs)
 	res.Hash = core.HashOf(strs)
 	res.NonTrivial = res.Cover["nontrivial"] > 0
 	res.Sample = strs[:4]
@@ -239,7 +290,7 @@ func init() {
 			"the full product is enumerated, plus seeded random longer strings; case = batch of 64 strings; non-trivial = batch contains a string that is not its own canonical form or has a fragment; distinct by batch content",
 		NumCases: c13NumCases,
 		Run:      c13Run,
-		Floors:   func(env *core.Env) []string { return []string{"part.enumerated", "part.random", "zero-ref", "nontrivial"} },
+		Floors:   func(env *core.Env) []string { return []string{"part.enumerated", "part.random", "zero-ref", "nontrivial", "sequence-checked"} },
 		Exhaustive: func(env *core.Env) bool { return false },
 		Assumptions: []string{"strings that NewRef rejects are outside the property's domain and only counted",
 			"for the text-empty non-zero references (\"\" and \"#\") only the round-trip laws are required, not the {\"$ref\":text} shape"},
